@@ -156,12 +156,22 @@ def fkey (a : Nat) : Int := F32.key (BitVec.ofNat 32 a)
 and for the `slices.SortStableFunc` of `SearchPoints` -/
 def sortHybrid (l : List (Res Nat)) : List (Res Nat) := l.mergeSort fun a b => fkey a.hybrid ≥ fkey b.hybrid
 
-instance : Inhabited (SubResult Nat) := ⟨⟨[], []⟩⟩
+instance : Inhabited (QTree Nat) := ⟨.leaf ⟨[], []⟩⟩
+instance : Inhabited (QForest Nat) := ⟨.nil⟩
 
-partial def evalTree : Tree → SubResult Nat
-  | .ranked l => ⟨l.map (·.id), l⟩
-  | .filter ids => ⟨ids, []⟩
-  | .node isOr subs => searchParallel fadd sortHybrid isOr (subs.map evalTree)
+-- the parsed tree as a query tree of the model: a ranked leaf's id set is its ids
+mutual
+partial def toQ : Tree → QTree Nat
+  | .ranked l => .leaf ⟨l.map (·.id), l⟩
+  | .filter ids => .leaf ⟨ids, []⟩
+  | .node isOr subs => .node isOr (toQF subs)
+partial def toQF : List Tree → QForest Nat
+  | [] => .nil
+  | t :: ts => .cons (toQ t) (toQF ts)
+end
+
+/-- the model's `evalTree` (the one `C06_tree` / `C06_answer` are about) -/
+def evalParsed (t : Tree) : SubResult Nat := evalTree fadd sortHybrid (toQ t)
 
 /-! choosing the sorted permutation the implementation chose (ties only) -/
 
@@ -256,7 +266,7 @@ def step (st : St) (line : String) : St × String :=
         off := (field "off" rest).toInt?.getD 0, lim := (field "lim" rest).toInt?.getD 0 }
       let repaired := field "variant" rest == "repaired"
       let pick := parseIds (field "pick" rest)
-      let r := evalTree t
+      let r := evalParsed t
       let lo := rq.off.toNat
       -- ties of the ranking (no explicit sort): equal hybrid scores.  The stable sort of `SearchPoints`
       -- is applied first; `searchPoints` applies it again, to a list then in order already.
